@@ -11,7 +11,7 @@ from harness import fw, gen_deps
 
 META = {
     "technique": "Coq proofs about a verified acyclicity test (sink removal), a Gallina mirror of the greedy ordering loop and a Gallina mirror of _find_cycles (Tarjan) + differential correspondence with dependency_checker.py on random graphs, random orderings and generated/corpus modules",
-    "level_text": "Machine-checked theorems (Coq 8.16, no axioms), for every finite graph / field list: acyclic_dec decides 'no node reaches itself by >=1 edge' (acyclic_dec_spec); the ordering loop returns a permutation of the fields (order_perm) in which every field follows the fields it mentions (order_respects_deps), returns source order when that is valid (order_stable) and never fails or runs out of fuel n+1 on locally acyclic inputs (order_defined); the Tarjan mirror reports no component iff the graph is acyclic (tarjan_none_iff_acyclic, both directions). Tie, re-checked each run: the compiler's cycle verdict and reported components on generated multi-file modules and on thousands of random graphs equal the models' results and an independent SCC computation; fields_in_dependency_order of every accepted structure equals the model's order on the dependency lists the pass itself used; an independent walk of the IR confirms the three order clauses on the real output.",
+    "level_text": "Machine-checked theorems (Coq 8.16, no axioms), for every finite graph / field list: acyclic_dec decides 'no node reaches itself by >=1 edge' (acyclic_dec_spec); the ordering loop returns a permutation of the fields (order_perm) in which every field follows the fields it mentions (order_respects_deps), returns source order when that is valid (order_stable) and never fails or runs out of fuel n+1 on locally acyclic inputs (order_defined); the Tarjan mirror of _find_cycles raises no error, needs fuel |g|+1 at most, and reports no component iff the graph is acyclic (tarjan_verdict, tarjan_none_iff_acyclic: both directions; tarjan_agrees_with_acyclic_dec). Tie, re-checked each run: the compiler's cycle verdict and reported components on generated multi-file modules and on thousands of random graphs equal the models' results and an independent SCC computation; fields_in_dependency_order of every accepted structure equals the model's order on the dependency lists the pass itself used; an independent walk of the IR confirms the three order clauses on the real output.",
     "level_note": "Trusted: Coq kernel + vm_compute; harness/props/c15.py (graph numbering, capture of the pass's inputs); generator coverage (histogram). Not proved: that each *reported* component of the Tarjan mirror is a strongly connected component (checked by correspondence with an independent SCC computation only); Python recursion depth (a dependency chain longer than the interpreter's recursion limit raises RecursionError; the model's fuel is unbounded).",
 }
 
@@ -477,6 +477,10 @@ def module_cases(ctx, files, main, label, desc, graph_cases, order_cases):
     for c in (gc_obj, gc_mod):
         if c is not None and c[1] is not None:
             graph_cases.append(c)
+        if c is not None and not c[2]["closed"]:
+            ctx.violation("dependency-graph-not-closed",
+                          "a dependency of %s is not itself a node of the graph (_find_cycles indexes graph[node])" % label,
+                          dict(kind="modules", files=files, main=main, implementation=c[2]["py"]), found_input=True)
     obj_cyclic = bool(gc_obj and gc_obj[2].get("ind"))
     mod_cyclic = bool(gc_mod and gc_mod[2].get("ind"))
     # verdict of the pass itself
@@ -650,7 +654,7 @@ def run(ctx):
                        "node labels are compared by identity of their hashable form (module file, object path)",
                        "Python's recursion limit is not modelled: the mirror has fuel |graph|+1, the interpreter about 1000 frames"]
     ctx.audit()
-    ctx.check_theorems("EmbossV.Deps.Properties_C15", "Deps/Properties_C15.v", expect_min=5)
+    ctx.check_theorems("EmbossV.Deps.Properties_C15", "Deps/Properties_C15.v", expect_min=8)
 
     phases = ctx.extra.setdefault("phase_s", {})
     t_ph = [time.time()]
@@ -697,9 +701,28 @@ def run(ctx):
 
     phase("testdata-modules")
     # model side
-    runner = fw.CoqCases(ctx, "graphs", HEADER, "run_graph", "run_graph_eqb", "graph",
-                         "(bool * bool * tres (list (list N)))", shard=500)
-    bad = runner.run(graph_cases)
+    # both batches are evaluated by Coq concurrently (each is itself sharded over processes)
+    import threading
+    runner_g = fw.CoqCases(ctx, "graphs", HEADER, "run_graph", "run_graph_eqb", "graph",
+                           "(bool * bool * tres (list (list N)))", shard=500)
+    runner_o = fw.CoqCases(ctx, "orders", HEADER, "run_order", "ores_eqb", "(graph * list N)", "ores", shard=500)
+    results = {}
+
+    def _run(name, runner, cases):
+        try:
+            results[name] = runner.run(cases)
+        except Exception as ex:      # re-raised in the main thread below
+            results[name] = ex
+    th = [threading.Thread(target=_run, args=("g", runner_g, graph_cases)),
+          threading.Thread(target=_run, args=("o", runner_o, order_cases))]
+    for t in th:
+        t.start()
+    for t in th:
+        t.join()
+    for v in results.values():
+        if isinstance(v, Exception):
+            raise v
+    bad = results["g"]
     ctx.obligation("correspondence: %d graphs — _find_cycles = Tarjan mirror (components) and verdict = acyclic_dec"
                    % len(graph_cases), not bad)
     for idx, out in bad[:5]:
@@ -710,9 +733,7 @@ def run(ctx):
                       dict(kind="graph", correspondence="Deps.Exec.run_graph vs dependency_checker._find_cycles",
                            graph=[[k, r] for k, r in obj["rows"]], implementation=obj["py"], independent_sccs=obj["ind"],
                            model_outputs=out[:2000]), found_input=False)
-    phase("coq-graphs")
-    runner = fw.CoqCases(ctx, "orders", HEADER, "run_order", "ores_eqb", "(graph * list N)", "ores", shard=500)
-    bad = runner.run(order_cases)
+    bad = results["o"]
     ctx.obligation("correspondence: %d field lists — implementation's order = Order.dep_order" % len(order_cases), not bad)
     for idx, out in bad[:5]:
         a, b, obj = order_cases[idx]
@@ -720,6 +741,6 @@ def run(ctx):
                       dict(kind="ordering", correspondence="Deps.Exec.run_order vs _find_dependency_ordering_for_fields_in_structure",
                            input=a, implementation=b, detail={k: v for k, v in obj.items() if k in ("replay", "names", "files", "main")},
                            model_outputs=out[:2000]), found_input=False)
-    phase("coq-orders")
+    phase("coq-cases")
     ctx.extra["graphs_compared"] = len(graph_cases)
     ctx.extra["orderings_compared"] = len(order_cases)
